@@ -509,10 +509,16 @@ def r83(ctx):
     ctx.ob('R8.3', 'who-may-touch', outside == 0, sample=f'accesses of {F} outside EventProducer: {outside}')
     # removals guarded
     sem_rm = subscription_semantics(ctx, 'remove')
+    # remove_all_listeners: the four documented forms over two event types and one listener, by cases (E11)
+    from .. import submap as _sm
+    ra_fn = getattr(ci, '_pdsa_orig_methods', {}).get('remove_all_listeners') or prog.method(P, 'remove_all_listeners', inherited=False)
+    ra_probs, ra_why = _sm.check_remove_all(prog, P, F, ra_fn, memo_fields(prog, F))
+    if ra_probs is None:
+        ctx.note(f'R8.3: {P}.remove_all_listeners is outside the abstract domain of the subscription-map interpreter ({ra_why}); the syntactic rule decides')
     nrm = 0
     for fn in ci.methods.values():
         g = None
-        if fn.name == 'remove_listener' and sem_rm is not None:
+        if (fn.name == 'remove_listener' and sem_rm is not None) or (fn.name == 'remove_all_listeners' and ra_probs is not None):
             nrm += 1                    # decided by the subscription-map interpreter
             continue
         for x in walk_shallow(fn):
@@ -566,6 +572,23 @@ def r83(ctx):
     ra = prog.method(P, 'remove_all_listeners', inherited=False)
     pe, pl = ra.args.args[1].arg, ra.args.args[2].arg
     want = {(True, True): 'clear-all', (True, False): 'per-type-remove-listener', (False, True): 'delete-type', (False, False): 'remove-one'}
+    if ra_probs is not None:
+        ctx.examined(4 * 36)
+        by_form = {}
+        for (form, case, what) in ra_probs:
+            by_form.setdefault(form, []).append((case, what))
+        for form in ('event_type None, listener None', 'event_type None, listener given', 'event_type given, listener None', 'event_type given, listener given'):
+            bad = by_form.get(form, [])
+            ctx.ob('R8.3', f'{P}.remove_all_listeners:{form}', not bad,
+                   sample=f'remove_all_listeners({form}) interpreted over 36 combinations of two event types: as documented: {not bad}')
+            if bad:
+                en, ln = 'event_type None' in form, 'listener None' in form
+                case, what = bad[0]
+                ctx.finding('R8.3', f'{P}.remove_all_listeners:type-{"none" if en else "given"}-listener-{"none" if ln else "given"}', ci, ra,
+                            f'remove_all_listeners with {form}, when there is {case}: {what} ({len(bad)} of 36 combinations differ from the documented effect)',
+                            where=f'{P}.remove_all_listeners')
+        want = {}
+        ctx.exhaustive['R8.3 remove_all_listeners: 4 forms x 6 x 6 cases of two event types'] = True
     for (en, ln), expected in want.items():
         env = {('isnone', pe): en, ('isnone', pl): ln, ('bool', f'isinstance({pe}, EventType)'): not en, ('bool', f'isinstance({pl}, EventListener)'): not ln}
         ge = GuardEval(prog, P, env)
